@@ -2,7 +2,7 @@
    of Wire/OptCodec.v (coap_opt_parse), as exactly the list of values - so the buffer determines
    the options. *)
 From LibcoapV Require Import Base.Tactics Base.Bytes Base.BytesProofs Wire.OptCodec Wire.OptCodecProofs
-  Uri.Uri Uri.Spec.
+  Uri.Uri Uri.Spec Uri.SegProofs Uri.PathProofs.
 Local Open Scope Z_scope.
 
 Lemma uri_opt_enc0_head v : exists b r, opt_enc 0 v = b :: r /\ 0 <= b <= 14.
@@ -45,4 +45,51 @@ Proof.
   pose proof (uri_buffer_parses l2 (length l1 + length l2) H2 ltac:(lia)) as P2.
   rewrite E in P1. rewrite P1 in P2. injection P2 as P.
   apply uri_map_tag0_inj. exact P.
+Qed.
+
+(* every result of the buffer functions - any input, any buffer size - is a list of values that
+   the option parser reads back from the bytes written *)
+Lemma uri_good_opts_vals dotcheck raws opts :
+  Forall (uri_good_opt dotcheck raws) opts ->
+  exists vals, opts = uri_encs vals /\ Forall (fun v => len v <= 65804) vals /\
+               (dotcheck = true -> Forall (fun v => uri_kind v = 0) vals).
+Proof.
+  induction opts as [|o opts IH]; intros H.
+  - exists []. repeat split; constructor.
+  - inversion H as [|? ? Ho Ht]; subst. destruct (IH Ht) as [vals [E [Hl Hk]]].
+    destruct Ho as [seg [d [_ [_ [Hd [Hkd ->]]]]]].
+    exists (d :: vals). split; [rewrite E; reflexivity|]. split.
+    + constructor; [exact Hd|exact Hl].
+    + intros Hc. constructor; auto.
+Qed.
+
+Theorem uri_split_path_parses s buflen :
+  0 <= buflen ->
+  exists vals used,
+    uri_split_path s buflen = UOk (uri_encs vals, used) /\ 0 <= used <= buflen /\
+    used = len (concat (uri_encs vals)) /\
+    Forall (fun v => uri_kind v = 0) vals /\
+    opts_parse (S (length vals)) 0 (concat (uri_encs vals)) = Some (map (fun v => (0, v)) vals, []).
+Proof.
+  intros Hb. destruct (uri_split_path_safe s buflen Hb) as [opts [used [E [Hu [Hs Hg]]]]].
+  destruct (uri_good_opts_vals true _ opts Hg) as [vals [-> [Hl Hk]]].
+  exists vals, used. split; [exact E|]. split; [exact Hu|]. split.
+  - rewrite Hs. clear. induction (uri_encs vals) as [|x l IH]; [reflexivity|].
+    cbn [uri_sumlen concat]. rewrite len_app, IH. reflexivity.
+  - split; [apply Hk; reflexivity|]. apply uri_buffer_parses; [exact Hl|apply Nat.le_succ_diag_r].
+Qed.
+
+Theorem uri_split_query_parses s buflen :
+  0 <= buflen ->
+  exists vals used,
+    uri_split_query s buflen = UOk (uri_encs vals, used) /\ 0 <= used <= buflen /\
+    used = len (concat (uri_encs vals)) /\
+    opts_parse (S (length vals)) 0 (concat (uri_encs vals)) = Some (map (fun v => (0, v)) vals, []).
+Proof.
+  intros Hb. destruct (uri_split_query_safe s buflen Hb) as [opts [used [E [Hu [Hs Hg]]]]].
+  destruct (uri_good_opts_vals false _ opts Hg) as [vals [-> [Hl _]]].
+  exists vals, used. split; [exact E|]. split; [exact Hu|]. split.
+  - rewrite Hs. clear. induction (uri_encs vals) as [|x l IH]; [reflexivity|].
+    cbn [uri_sumlen concat]. rewrite len_app, IH. reflexivity.
+  - apply uri_buffer_parses; [exact Hl|apply Nat.le_succ_diag_r].
 Qed.
